@@ -18,7 +18,7 @@ from gvsim.sim import Raised, sut
 OBS_NAMES = ['fully_transparent', 'partially_occluded', 'raytracing', 'stochastic_raytracing']
 
 
-def gen_area(r, name, max_extent=7):
+def gen_area(r, name, max_extent=7, behind_ok=False):
     """any extent, symmetric or not; origin inside unless the function tolerates it outside"""
     if r.random() < 0.2:
         return [[-6, 0], [-3, 3]]
@@ -27,7 +27,9 @@ def gen_area(r, name, max_extent=7):
         # size knob: extents of the form 2^k - 1 (cell-corner counts that are powers of two), a few hundred rays at most
         vh, vw = r.choice([(15, 15), (7, 31), (31, 7), (3, 63), (63, 3), (7, 15), (15, 7), (3, 31), (31, 3), (1, 127), (127, 1)])
     if name == 'partially_occluded':
-        ymax = 0
+        # documented for views that end at the agent's row; other views may be refused (the caller decides what a
+        # refusal means), and one time in ten they are asked for all the same
+        ymax = 0 if (not behind_ok or r.random() < 0.9) else r.randint(1, vh - 1) if vh > 1 else 0
     elif name == 'fully_transparent' and r.random() < 0.3:
         ymax = r.randint(-3, vh + 2)  # origin possibly outside the view
     else:
